@@ -73,9 +73,18 @@ def tableAt (c : Case) (i : Nat) : Table := (c.tables[i]?).getD []
 
 def descOf (c : Case) (lwCat rwCat : Nat) : Except String JoinDesc :=
   match c.plan with
-  | .project _ es (.join jt lw rw _ on (.scan a) (.scan b)) =>
+  | .project _ es (.join jt lw rw _ on l r) =>
+    -- the inputs of the (top) join: base tables, or the reference answer of a nested join
+    let inputOf (q : Query) : Except String Table := match q with
+      | .scan a => pure (tableAt c a)
+      | q => match Spec.run fo fns c.tables q [] [] with
+        | .ok t => pure (normTable t)
+        | .error _ => throw "join input outside the C22 model"
+    do
+    let L ← inputOf l
+    let R ← inputOf r
     let (lk, rk, rest) := if jt == .cross then ([], [], []) else splitOn lw on
-    pure { jt := jt, lw := lw, rw := rw, L := tableAt c a, R := tableAt c b, lkeys := lk, rkeys := rk, rest := rest,
+    pure { jt := jt, lw := lw, rw := rw, L := L, R := R, lkeys := lk, rkeys := rk, rest := rest,
            viaExists := false, es := es }
   | .project _ es (.filter [sub] (.exists_ 0 neg) (.scan a)) =>
     match sub with
